@@ -36,6 +36,20 @@ tie    : T  translate/t_proj.py regenerates coq/gen/Proj.v from methods/*.hpp, m
             shipped expression is still EXACT (== model), while a rewrite that does not form x - m first (P^T x -
             P^T m: equal over every exact field, theorem project_hoisted_mean_equal) rounds at the magnitude of the
             offset and fails by many orders of magnitude.
+         Wave 4 — "so it can be applied to unseen vectors consistently": the returned function is a FUNCTION of its
+            argument.  (T) translate/t_proj.py also reads struct MatrixProjectionImplementation: data members, and for
+            project() the non-local identifiers it writes (assignment, compound assignment, increment, mutating member
+            call), static / thread_local declarations, mutable / static members, file-scope statics -> gen/Proj.v
+            `mpi_purity`; obligation Proj_Tie.mpi_project_pure_obligation (no write, no static, no mutable) re-proved on
+            every run; theorems C07_readonly_calls_do_not_interfere (any interleaving of calls that write nothing
+            leaves the object unchanged and gives every call what it gets alone), C07_project_is_a_function_under_
+            interleaving (the shipped call), C07_buffered_project_refuted (a member scratch buffer: same value alone,
+            another call's value under interleaving).  (C) concurrent-application stream: MatrixProjectionImplementation
+            applied by 2 .. 8 std::threads at once through their own copies of one ProjectingFunction (copy construction
+            and copy ASSIGNMENT), D up to 2048 (4096 thorough), several repetitions, every answer compared bitwise with
+            the sequential one — harness/c07_conc.cpp (includes projection.hpp only) built with ASan+UBSan and once more
+            with ThreadSanitizer; the same through the public API (harness/c07.cpp EMBC: copies of the TapkeeOutput in
+            std::threads and an `omp parallel for` over the batch) for RandomProjection and PCA (thorough: all five).
 search : when an obligation or the correspondence breaks, a larger budget of public-API cases is run
          through the same decision procedures.
 """
@@ -71,6 +85,11 @@ TRUSTED = [
     "entry (the componentwise forward-error bound of P^T (x - m) in binary64; twice that between projection(x_i) and "
     "row i); the stored mean against the training mean: 1e-11 * max|x| * N (its rounding error is relative to |x|); "
     "an affine combination that had to be rounded to binary64 adds 2^-52 * max|P| * max|q| * D",
+    "concurrent application: a race needs calls that actually overlap; long vectors (D up to 2048), 2 .. 8 threads and "
+    "several repetitions make that overwhelmingly likely but the bitwise comparison is a test; the ThreadSanitizer build "
+    "(happens-before analysis: reports unsynchronised conflicting accesses whether or not they collided) and the structural "
+    "table of project() (regular expressions over projection.hpp; self-test: member buffer, static buffer, noalias() into a "
+    "member are detected, a local temporary leaves the table unchanged) do not depend on timing",
     "g++ ASan + _GLIBCXX_ASSERTIONS as the memory-safety observer (UBSan in addition in the thorough tier only: the "
     "driver instantiates all twenty methods and UBSan adds 25 s to its build)",
 ]
